@@ -59,6 +59,7 @@ AUX2_RECS = [
     mrec("n", "x", ["n1", "n1"]),     # brings the same new synonym twice
     mrec("b", "x", ["n2"]),
     mrec("n1", "y", [], ["y2", "y2"]),
+    mrec("c", "z", [], [], ""),       # the empty pattern: no pattern as far as pattern_map is concerned, whichever way the record arrives
 ]
 LOADER_INITS = [
     [mrec("A", "X"), mrec("a", "x")],                       # from_prefix_map
@@ -72,6 +73,7 @@ AUX2_INITS = [
     [mrec("a", "x", ["b", "b"], ["y", "y"])],
     [mrec("a", "b,c"), mrec("a,b", "c")],
     [mrec("a", "b", ["c,d"], ["e,f"]), mrec("c", "e", ["d"], ["f"])],
+    [mrec("a", "x", [], [], ""), mrec("b", "y", [], [], PAT)],
 ]
 
 INITS = [
